@@ -329,6 +329,81 @@ def qsigmoid_build(sym, real):
   return build
 
 
+def range_scenario(cls, variant=None):
+  """q.range() enumerates exactly the code set of the format: with the array read through ONE generic element
+  (index idx, lo <= idx < hi, see pyvc/lib.generic_array) the clauses are
+    sound      the element is step * k for an integer code k inside [lo_code, hi_code]
+    complete   every code k of the format is the element at an explicitly given index inside the array
+    injective  two indexes with equal elements are equal (so the array has no duplicates and its length is the number of codes)
+  together with C01 `code` (every output is such a code) and C02 `idem` (every code is an output) this is
+  "range() enumerates exactly the reachable set"."""
+  def scenario(ip):
+    s = Scen()
+    bits, integer = z3.Int("bits"), z3.Int("integer")
+    s.vars.update({"bits": bits, "integer": integer})
+    ip.assume(z3.And(bits >= 1, integer >= 0))
+    ip.generic_indexes, ip.concat_parts = [], []
+    if cls == "quantized_bits":
+      ip.assume(bits >= 2)
+      q = ip.call(Q.qcls(ip, cls), [SNum(bits), SNum(integer), 0, 1], {})
+      n = bits - 1
+      lo, hi = -I.IPOW2(n), I.IPOW2(n) - 1
+      step = P(integer - n)
+      s.hints.extend([n, bits, integer - n, -bits + integer + 1])
+    elif cls == "quantized_relu":
+      q = ip.call(Q.qcls(ip, cls), [SNum(bits), SNum(integer)], {})
+      lo, hi = z3.IntVal(0), I.IPOW2(bits) - 1
+      step = P(integer - bits)
+      s.hints.extend([bits, integer - bits, -bits + integer])
+    else:
+      kn, sym = variant
+      ip.assume(bits - kn >= 1)
+      q = ip.call(Q.qcls(ip, cls), [SNum(bits), SNum(integer), sym, kn], {})
+      n = bits - kn
+      lo, hi = (-I.IPOW2(n) + sym if kn else z3.IntVal(0)), I.IPOW2(n) - 1
+      step = P(integer - n)
+      s.hints.extend([n, integer - n])
+    r = run_call(ip, ip.getattr(q, "range"), [])
+    s.claim("no_raise", r[0] == "return")
+    if r[0] != "return":
+      s.info["raised"] = str(r[1])
+      return s
+    if not ip.generic_indexes:
+      s.claim("sound", False)
+      s.info["raised"] = "range() did not build its result from an index array"
+      return s
+    v = Q.num_value(r[1])
+    if cls == "quantized_linear":
+      piece = ip.concat_parts[-1] if ip.concat_parts else 0
+      idx, ilo, ihi = ip.generic_indexes[piece]
+    else:
+      idx, ilo, ihi = ip.generic_indexes[0]
+    s.vars["idx"] = idx
+    k = z3.Int("k")
+    s.vars["k"] = k
+    if cls == "quantized_bits":
+      code_of = z3.If(idx >= I.IPOW2(n), idx - I.IPOW2(bits), idx)
+      index_of = z3.If(k >= 0, k, k + I.IPOW2(bits))
+      dom = z3.And(lo <= k, k <= hi)
+      s.hints.extend([bits, n])
+      ip.assume(I.IPOW2(bits) == 2 * I.IPOW2(n))
+    elif cls == "quantized_relu":
+      code_of, index_of, dom = idx, k, z3.And(lo <= k, k <= hi)
+    else:
+      code_of, index_of = idx, k
+      dom = z3.And(0 <= k, k <= hi) if piece == 0 else z3.And(lo <= k, k <= -1)
+    s.claim("sound", z3.And(v == step * z3.ToReal(code_of), lo <= code_of, code_of <= hi))
+    at = lambda i: z3.substitute(v, (idx, i))
+    s.claim("complete", z3.Implies(dom, z3.And(ilo <= index_of, index_of < ihi, at(index_of) == step * z3.ToReal(k))))
+    j = z3.Int("idx2")
+    s.vars["idx2"] = j
+    s.claim("injective", z3.Implies(z3.And(ilo <= j, j < ihi, at(j) == v), j == idx))
+    s.claim("length", (ihi - ilo) == (hi - lo + 1) if cls != "quantized_linear" else
+            ((ihi - ilo) == hi + 1 if piece == 0 else (ihi - ilo) == -lo))
+    return s
+  return scenario
+
+
 def bounds(vars_):
   cs = []
   for k, v in vars_.items():
@@ -365,4 +440,14 @@ def cases(tier, prop="C01"):
     for real in (False, True):
       add("quantized_tanh.__call__", "sym%d_%s" % (sym, "real" if real else "hard"), qtanh_build(sym, real), idem=False)
       add("quantized_sigmoid.__call__", "sym%d_%s" % (sym, "real" if real else "hard"), qsigmoid_build(sym, real), idem=False)
+  if prop == "C01":
+    out.append(Case(prop, TGT + "quantized_bits.range", "enumeration", range_scenario("quantized_bits"), bounds=bounds,
+                    replay_kind="c01_range", assumptions=ASSUME, lo=-12, hi=12))
+    out.append(Case(prop, TGT + "quantized_relu.range", "enumeration", range_scenario("quantized_relu"), bounds=bounds,
+                    replay_kind="c01_range", assumptions=ASSUME, lo=-12, hi=12))
+    for kn in (1, 0):
+      for sym in (0, 1):
+        out.append(Case(prop, TGT + "quantized_linear.range", "enumeration_kn%d_sym%d" % (kn, sym),
+                        range_scenario("quantized_linear", (kn, sym)), bounds=bounds, replay_kind="c01_range",
+                        assumptions=ASSUME, lo=-12, hi=12))
   return out
